@@ -123,7 +123,11 @@ func runRegScript(script string) (string, *fw.OracleFailure) {
 		}
 	}
 	// callbacks: per server-side connection, in order of appearance after `mark`
-	type cb struct{ joins, leaves int; jkey, lkey string; jerr bool }
+	type cb struct {
+		joins, leaves int
+		jkey, lkey    string
+		jerr          bool
+	}
 	per := map[int]*cb{}
 	time.Sleep(30 * time.Millisecond)
 	for _, e := range srv.Snapshot()[mark:] {
